@@ -11,7 +11,9 @@ Import ListNotations.
 Definition name := string.
 Definition path := list name.            (* [] is the sandbox root, a foreign directory *)
 
-Record fnode := { f_bytes : string; f_mtime : N; f_id : N }.
+(* f_json: the JSON value a gzip-JSON file (the cache file) holds; None for any
+   other content (plain bytes, truncated or corrupted gzip, gzip of non-JSON) *)
+Record fnode := { f_bytes : string; f_mtime : N; f_id : N; f_json : option pyval }.
 Inductive node := NFile (f : fnode) | NDir.
 
 Definition fsT := list (path * option node).
@@ -190,16 +192,16 @@ Fixpoint makedirs (fs : fsT) (p : path) : fsT + oserr :=
 
 (* open(p, 'w') + write + close by user code or by Cache.write: creates or
    overwrites a regular file; [id] is the identity of a newly created inode *)
-Definition write_file (fs : fsT) (p : path) (bytes : string) (mtime id : N) : fsT + oserr :=
+Definition write_file (fs : fsT) (p : path) (bytes : string) (json : option pyval) (mtime id : N) : fsT + oserr :=
   match p with
   | [] => inr EISDIR
   | n :: d =>
       match lookup fs p with
       | Some NDir => inr EISDIR
-      | Some (NFile f) => inl (upd p (Some (NFile {| f_bytes := bytes; f_mtime := mtime; f_id := f_id f |})) fs)
+      | Some (NFile f) => inl (upd p (Some (NFile {| f_bytes := bytes; f_mtime := mtime; f_id := f_id f; f_json := json |})) fs)
       | None =>
           match lookup fs d with
-          | Some NDir => if name_ok n then inl (upd p (Some (NFile {| f_bytes := bytes; f_mtime := mtime; f_id := id |})) fs)
+          | Some NDir => if name_ok n then inl (upd p (Some (NFile {| f_bytes := bytes; f_mtime := mtime; f_id := id; f_json := json |})) fs)
                          else inr EOTHER
           | Some (NFile _) => inr ENOTDIR
           | None => inr (stat_err fs p)
